@@ -6,7 +6,10 @@
 // sigma points, StateModel::motion) and SUKFCorrection as correction step.
 // meta lin, circ, quat: layout of the beliefs (dim_linear, dim_circular, use_quaternion); F is dim x dim, Q is
 // dim_covariance x dim_covariance.
-// word ops: "<name>:on" | "<name>:off" | "predict" | "correct" | "predict!" | "correct!"; with "!" the output object
+// meta sensor=stream (harness sensor serving y + count*dy, counting the freeze calls) | sim (the library's
+// SimulatedLinearSensor over a SimulatedStateModel started at x0).
+// word ops: "<name>:on" | "<name>:off" | "freeze" | "predict" | "correct" | "predict!" | "correct!";
+// "freeze" calls freeze_measurements() on the subject's correction step AND on its never-skipped twins; with "!" the output object
 // handed to the step has ANOTHER shape (2 more components, 1 more linear dimension, no circular part) than the input.
 // The commands go through GaussianFilter::skip / ParticleFilter::skip (a GaussianFilter subclass, an
 // SIS subclass; the filtering thread is never started); predict / correct are called on the filter's
@@ -35,6 +38,8 @@
 #include <BayesFilters/Resampling.h>
 #include <BayesFilters/SIS.h>
 #include <BayesFilters/SUKFCorrection.h>
+#include <BayesFilters/SimulatedLinearSensor.h>
+#include <BayesFilters/SimulatedStateModel.h>
 #include <BayesFilters/UKFCorrection.h>
 #include <BayesFilters/UKFPrediction.h>
 #include <functional>
@@ -101,12 +106,17 @@ struct GenState : public TState {
     }
 };
 
+// stream-like sensor: every freeze() advances the source; measure() serves the measurement frozen last
+// (y, y + dy, y + 2 dy, ...); the number of freeze calls received is observable
 struct TMeas : public LTIMeasurementModel {
-    MatrixXd y_;
-    TMeas(const MatrixXd& H, const MatrixXd& R, const MatrixXd& y, const Layout& l) : LTIMeasurementModel(H, R), y_(y), l_(l) {}
-    bool freeze(const Data&) override { return true; }
-    std::pair<bool, Data> measure(const Data&) const override { return std::make_pair(true, Data(y_)); }
+    MatrixXd y0_, dy_, cur_;
+    long count_ = 0;
     Layout l_;
+    TMeas(const MatrixXd& H, const MatrixXd& R, const MatrixXd& y, const Layout& l) : LTIMeasurementModel(H, R), y0_(y), cur_(y), l_(l) {
+        dy_ = (y.array() * 0.25 + 0.5).matrix();
+    }
+    bool freeze(const Data&) override { ++count_; cur_ = y0_ + dy_ * static_cast<double>(count_); return true; }
+    std::pair<bool, Data> measure(const Data&) const override { return std::make_pair(true, Data(cur_)); }
     VectorDescription getInputDescription() const override { return l_.desc(); }
     VectorDescription getMeasurementDescription() const override { return VectorDescription(H_.rows()); }
 };
@@ -140,7 +150,17 @@ struct Setup {
         if (exo) s->add_exogenous_model(std::unique_ptr<ExogenousModel>(new AffineExo(c.mat("B"), c.mat("c"))));
         return std::unique_ptr<SM>(s.release());
     }
-    template <typename MM> std::unique_ptr<MM> meas() const { return std::unique_ptr<MM>(new TMeas(c.mat("H"), c.mat("R"), c.mat("y"), l)); }
+    template <typename MM> std::unique_ptr<MM> meas() const {
+        if (c.m("sensor", "stream") == "sim") {
+            // the library's own stream: SimulatedLinearSensor over a SimulatedStateModel (freeze -> bufferData advances the trajectory)
+            const MatrixXd& R = c.mat("R");
+            std::unique_ptr<StateModel> target(new TState(c.mat("F"), c.mat("Q"), c.mat("noise"), l));
+            std::unique_ptr<SimulatedStateModel> sim(new SimulatedStateModel(std::move(target), c.mat("x0").col(0), static_cast<unsigned int>(c.mi("traj", 64))));
+            std::vector<std::size_t> idx; for (long i = 0; i < R.rows(); i++) idx.push_back(static_cast<std::size_t>(i));
+            return std::unique_ptr<MM>(new SimulatedLinearSensor(std::move(sim), LinearModel::LinearMatrixComponent{static_cast<std::size_t>(l.dim()), idx}, R));
+        }
+        return std::unique_ptr<MM>(new TMeas(c.mat("H"), c.mat("R"), c.mat("y"), l));
+    }
     std::unique_ptr<GaussianPrediction> gpred(const std::string& k) const {
         if (k == "kf") return std::unique_ptr<GaussianPrediction>(new KFPrediction(state<LinearStateModel>()));
         if (k == "ukfg") return std::unique_ptr<GaussianPrediction>(new UKFPrediction(state<StateModel, GenState>(), 1.0, 2.0, 0.0));   // generic constructor
@@ -239,8 +259,14 @@ static std::vector<std::string> run_word(const vf::Case& c, Make make, bool exo,
         return s;
     };
     trace.push_back("init," + flags());
-    sub.C().freeze_measurements(); twin.C().freeze_measurements();
-    if (twin_noexo) twin_noexo->C().freeze_measurements();
+    // the measurement the correction would use now: the subject's against the never-skipped twin's
+    auto same_measurement = [&]() {
+        bool v1, v2; Data d1, d2;
+        std::tie(v1, d1) = sub.C().getMeasurementModel().measure();
+        std::tie(v2, d2) = twin.C().getMeasurementModel().measure();
+        if (!v1 || !v2) return v1 == v2;
+        return vf::bit_equal(any::any_cast<MatrixXd>(d1), any::any_cast<MatrixXd>(d2));
+    };
     for (const std::string& op0 : ops) {
         const bool other_shape = !op0.empty() && op0[op0.size() - 1] == '!';
         const std::string op = other_shape ? op0.substr(0, op0.size() - 1) : op0;
@@ -273,6 +299,15 @@ static std::vector<std::string> run_word(const vf::Case& c, Make make, bool exo,
             }
             inputs_kept = inputs_kept && eq(in, in_copy);
             trace.push_back(tok);
+        } else if (op == "freeze") {
+            // freeze_measurements() on the correction step of the subject and, identically, of its never-skipped twins
+            bool r;
+            { vf::Entry e("Correction::freeze_measurements"); r = sub.C().freeze_measurements(); }
+            twin.C().freeze_measurements();
+            if (twin_noexo) twin_noexo->C().freeze_measurements();
+            TMeas* tm = dynamic_cast<TMeas*>(&sub.C().getMeasurementModel());
+            trace.push_back(std::string("freeze=") + (r ? "true" : "false") + ",meas=" + (same_measurement() ? "same" : "differs")
+                            + ",n=" + (tm ? std::to_string(tm->count_) : std::string("-")));
         } else {
             auto p = op.find(':');
             const std::string name = op.substr(0, p); const bool status = op.substr(p + 1) == "on";
@@ -290,6 +325,11 @@ static std::string compress(const std::vector<std::string>& trace) {
     std::string rs, fl = trace[0].substr(5);
     for (std::size_t i = 1; i + 2 < trace.size(); i++) {
         const std::string& t = trace[i];
+        if (t.compare(0, 7, "freeze=") == 0) {
+            // z: forwarded, same measurement as the twin; Z: forwarded, another measurement; n: freeze returned false
+            rs += t.compare(7, 4, "true") != 0 ? 'n' : (t.find("meas=same") != std::string::npos ? 'z' : 'Z');
+            continue;
+        }
         rs += t[2] == 't' && t[3] == 'r' ? 't' : (t[2] == 'f' ? 'f' : 'x');
         fl = t.substr(t.find(',') + 1);
     }
@@ -309,7 +349,8 @@ static void drive(const vf::Case& c, Make make, bool exo, const std::string& cfg
         std::vector<std::string> res;
         res.reserve(total);
         for (long w = 0; w < total; w++) {
-            std::vector<std::string> ops = c.word("prefix");
+            std::vector<std::string> ops; ops.push_back("freeze");      // every word starts with one freeze
+            for (const std::string& x : c.word("prefix")) ops.push_back(x);
             std::vector<long> idx(ext); long r = w;
             for (long i = ext - 1; i >= 0; i--) { idx[i] = r % a; r /= a; }
             for (long i = 0; i < ext; i++) ops.push_back(alpha[idx[i]]);
